@@ -55,7 +55,11 @@ const DETAILS: &[Details] = &[
         target_os = "macos"
     ))]
     s!(SIGINFO, Ignore),
-    #[cfg(not(target_os = "haiku"))]
+    // Unlike on the BSD family, the default action of SIGIO on Linux is to terminate the process
+    // (see signal(7)).
+    #[cfg(any(target_os = "linux", target_os = "android"))]
+    s!(SIGIO, Term),
+    #[cfg(not(any(target_os = "haiku", target_os = "linux", target_os = "android")))]
     s!(SIGIO, Ignore),
     // Can't override anyway, but...
     s!(SIGKILL, Term),
